@@ -30,6 +30,8 @@ func init() {
 			ruleGroupOptionOrder(c, "R9")
 			ruleRequestPathIsMatched(c, "R8")
 			ruleSearchTriesEverySibling(c, "R6", []*ssa.Function{c.A.TreeURL}, "strict URL building succeeds for every live route: the route lookup tries every sibling")
+			ruleReadersWriteNothing(c, "R10", "tree", "router")
+			rulePatternsEnterThroughTheParser(c, "R11")
 		},
 	})
 }
